@@ -24,3 +24,5 @@ open Pcore.Object
 #print axioms C17_type_inithash_constant_undef
 #print axioms C17_instance_closure
 #print axioms C17_assignable_closure
+#print axioms C17_get_named_plain
+#print axioms C17_named_notundef_undef
